@@ -96,7 +96,8 @@ def shared_effects(it, state_obj=None):
     bad = []
     for e in it.effects:
         if e.kind in ('global-write', 'class-attr-write',
-                      'function-attribute', 'setattr-dynamic'):
+                      'function-attribute', 'setattr-dynamic',
+                      'raise-shared-exception'):
             bad.append(e)
         elif e.kind in ('setitem', 'delitem', 'mutating-method'):
             d = e.detail
